@@ -503,6 +503,8 @@ struct Action {
     reflow: bool,
     /// the tab is closed and opened again: didClose + didOpen, and the editor restarts the version numbering
     reopen: bool,
+    /// the editor sends exactly the text the file has on disk (an undo back to the saved state)
+    revert: bool,
     /// replay: the recorded text, verbatim
     fixed_text: Option<String>,
 }
@@ -515,13 +517,20 @@ fn reflowed(prev: &str) -> String {
     }
 }
 
-fn run_session(mode: LMode, docs: &[&str], actions: &[Action], check_every_step: bool, ctx: &mut Ctx, exhaustive: bool) {
+/// `unsaved`: documents that exist only in the editor (never written to disk)
+fn run_session(mode: LMode, docs: &[&str], actions: &[Action], check_every_step: bool, ctx: &mut Ctx, exhaustive: bool, unsaved: &[usize]) {
     // disk: for C11 disk always equals what the editor sends (so the result does not depend on C12);
     // for C12 disk holds different (faulty, include-carrying) texts than the editor ever sends
     let mut s = Session::start(if mode == LMode::Converge { "C11" } else { "C12" });
     let n = docs.len();
     let mut disk: Vec<String> = (0..n).map(|d| doc_text(d, docs, "disk", 0, d + 1 < n, true)).collect();
+    if !unsaved.is_empty() {
+        ctx.feature("sessions_with_unsaved_document");
+    }
     for d in 0..n {
+        if unsaved.contains(&d) {
+            continue;
+        }
         s.write_disk(docs[d], &disk[d]);
     }
     let mut buffers: Vec<Option<String>> = vec![None; n];
@@ -532,12 +541,13 @@ fn run_session(mode: LMode, docs: &[&str], actions: &[Action], check_every_step:
     let mut history = Vec::new();
     let mut viol: Vec<(String, String)> = Vec::new();
     let mut ever_published: BTreeSet<String> = BTreeSet::new();
-    let case_json = |history: &Vec<Value>| json!({"kind": "lsp_session", "docs": docs, "history": history, "check_every_step": check_every_step});
+    let case_json = |history: &Vec<Value>| json!({"kind": "lsp_session", "docs": docs, "history": history, "check_every_step": check_every_step, "unsaved": unsaved});
     let mut watchdog = false;
     for (step, act) in actions.iter().enumerate() {
         versions[act.doc] += 1;
         let text = match (&buffers[act.doc], act.resend, act.reflow) {
             _ if act.fixed_text.is_some() => act.fixed_text.clone().unwrap(),
+            _ if act.revert && !unsaved.contains(&act.doc) => disk[act.doc].clone(),
             (Some(prev), true, _) => prev.clone(),
             (Some(prev), _, true) => reflowed(prev),
             _ => doc_text(act.doc, docs, "ed", versions[act.doc] * 10 + act.doc, act.include_next, act.faulty),
@@ -545,10 +555,13 @@ fn run_session(mode: LMode, docs: &[&str], actions: &[Action], check_every_step:
         if act.resend && buffers[act.doc].is_some() {
             ctx.feature("action:resend-same-text");
         }
+        if act.revert && !unsaved.contains(&act.doc) && buffers[act.doc].as_ref().map(|b| *b != disk[act.doc]).unwrap_or(false) {
+            ctx.feature("action:revert-to-disk-text");
+        }
         if act.reflow && buffers[act.doc].as_ref().map(|p| *p != text).unwrap_or(false) {
             ctx.feature("action:reflow-same-byte-offsets");
         }
-        if mode == LMode::Converge {
+        if mode == LMode::Converge && !unsaved.contains(&act.doc) {
             disk[act.doc] = text.clone();
             s.write_disk(docs[act.doc], &text);
         }
@@ -582,8 +595,10 @@ fn run_session(mode: LMode, docs: &[&str], actions: &[Action], check_every_step:
         ctx.eval();
         ctx.feature("quiescent_points");
         // reference session: texts = disk overlaid by open buffers; root = last touched document
-        let texts: Vec<(String, String)> = (0..n).map(|d| (docs[d].to_string(), buffers[d].clone().unwrap_or(disk[d].clone()))).collect();
-        let w = Workspace { files: texts, root: root.unwrap() };
+        // (a document that is neither open nor on disk does not exist)
+        let texts: Vec<(String, String)> = (0..n).filter(|d| buffers[*d].is_some() || !unsaved.contains(d)).map(|d| (docs[d].to_string(), buffers[d].clone().unwrap_or(disk[d].clone()))).collect();
+        let root_idx = texts.iter().position(|t| t.0 == docs[root.unwrap()]).unwrap_or(0);
+        let w = Workspace { files: texts, root: root_idx };
         let want = expected_diagnostics(&w);
         let (last, vers) = s.published();
         ever_published.extend(last.keys().cloned());
@@ -712,10 +727,10 @@ fn action_pool(n_docs: usize) -> Vec<Action> {
     for doc in 0..n_docs {
         for include_next in [false, true] {
             for faulty in [false, true] {
-                v.push(Action { doc, include_next, faulty, resend: false, reflow: false, reopen: false, fixed_text: None });
+                v.push(Action { doc, include_next, faulty, resend: false, reflow: false, reopen: false, revert: false, fixed_text: None });
             }
         }
-        v.push(Action { doc, include_next: false, faulty: true, resend: true, reflow: false, reopen: false, fixed_text: None });
+        v.push(Action { doc, include_next: false, faulty: true, resend: true, reflow: false, reopen: false, revert: false, fixed_text: None });
     }
     v
 }
@@ -723,8 +738,9 @@ fn action_pool(n_docs: usize) -> Vec<Action> {
 fn action_pool_wide(n_docs: usize) -> Vec<Action> {
     let mut v = action_pool(n_docs);
     for doc in 0..n_docs {
-        v.push(Action { doc, include_next: false, faulty: true, resend: false, reflow: true, reopen: false, fixed_text: None });
-        v.push(Action { doc, include_next: doc + 1 < n_docs, faulty: true, resend: false, reflow: false, reopen: true, fixed_text: None });
+        v.push(Action { doc, include_next: false, faulty: true, resend: false, reflow: true, reopen: false, revert: false, fixed_text: None });
+        v.push(Action { doc, include_next: doc + 1 < n_docs, faulty: true, resend: false, reflow: false, reopen: true, revert: false, fixed_text: None });
+        v.push(Action { doc, include_next: doc + 1 < n_docs, faulty: true, resend: false, reflow: false, reopen: false, revert: true, fixed_text: None });
     }
     v
 }
@@ -789,9 +805,9 @@ impl Check for LspCheck {
                         break;
                     }
                     let acts: Vec<Action> = h.iter().map(|i| pool[*i].clone()).collect();
-                    run_session(mode, &DOCS2, &acts, true, ctx, true);
+                    run_session(mode, &DOCS2, &acts, true, ctx, true, &[]);
                     if acts.len() >= 2 {
-                        run_session(mode, &DOCS2, &acts, false, ctx, true);
+                        run_session(mode, &DOCS2, &acts, false, ctx, true, &[]);
                     }
                 }
                 // random longer histories over three documents (chain a -> b -> c)
@@ -807,7 +823,9 @@ impl Check for LspCheck {
                     if odd {
                         ctx.feature("sessions_with_percent_encoded_names");
                     }
-                    run_session(mode, if odd { &DOCS3_ODD } else { &DOCS3 }, &acts, rng.chance(1, 2), ctx, false);
+                    // a third of the sessions has one document that exists only in the editor (a new, unsaved file)
+                    let unsaved: Vec<usize> = if rng.chance(1, 3) { vec![rng.below(3)] } else { vec![] };
+                    run_session(mode, if odd { &DOCS3_ODD } else { &DOCS3 }, &acts, rng.chance(1, 2), ctx, false, &unsaved);
                 }
             }
         }
@@ -824,12 +842,13 @@ impl Check for LspCheck {
                         .filter_map(|h| {
                             let d = docs.iter().position(|x| Some(x.as_str()) == h["doc"].as_str())?;
                             let t = h["text"].as_str()?;
-                            Some(Action { doc: d, include_next: t.contains("include "), faulty: t.contains(": U_"), resend: false, reflow: false, reopen: h["action"].as_str() == Some("didClose+didOpen"), fixed_text: Some(t.to_string()) })
+                            Some(Action { doc: d, include_next: t.contains("include "), faulty: t.contains(": U_"), resend: false, reflow: false, reopen: h["action"].as_str() == Some("didClose+didOpen"), revert: false, fixed_text: Some(t.to_string()) })
                         })
                         .collect()
                 })
                 .unwrap_or_default();
-            run_session(self.mode, &docs_ref, &acts, case["check_every_step"].as_bool().unwrap_or(true), ctx, false);
+            let unsaved: Vec<usize> = case["unsaved"].as_array().map(|a| a.iter().filter_map(|x| x.as_u64().map(|u| u as usize)).collect()).unwrap_or_default();
+            run_session(self.mode, &docs_ref, &acts, case["check_every_step"].as_bool().unwrap_or(true), ctx, false, &unsaved);
         } else {
             ctx.note("replay of a C09 case re-runs the whole unit is not supported; re-run the check with the recorded seed");
         }
@@ -837,7 +856,7 @@ impl Check for LspCheck {
     fn rule(&self) -> String {
         match self.mode {
             LMode::Locations => "generated multi-file workspaces (G-prog: root + 1-2 included files with different line structure, half with non-ASCII text, a quarter CRLF, a quarter with LF and CRLF mixed line by line (including empty lines, so CRLF is directly followed by LF), half with a dead use, half with one seeded semantic fault) written to a per-session directory; the real server is driven over JSON-RPC in process (didOpen of the root, logical quiescence through hook counters + barrier requests). For up to 60 (thorough 200) identifier positions (uses and declarations, in every file): textDocument/definition and textDocument/references; for every file: documentSymbol (range and selectionRange of every node), foldingRange (lines), documentLink (range + target URI), inlayHint (positions); publishDiagnostics per URI. Each answer must equal the ide-level result for the same texts with every (file, byte range) converted by refpos USING THE TEXT OF THE FILE THE RANGE BELONGS TO. non-trivial = every workspace; distinct by digest".into(),
-            LMode::Converge => "sessions over documents a.td (-> b.td (-> c.td)); every text version carries uniquely named classes and, if faulty, a uniquely named undefined parent, and includes the next document or not; disk is rewritten with the same text before each message (so C12 cannot interfere). EXHAUSTIVE: all histories of length <= 3 (thorough 4) over the 10-action pool of two documents (8 new texts - the second document may include the first one back, an include cycle - and a resend of the unchanged text per document), each run twice: checked at every quiescent prefix, and sent as a burst and checked at the end. RANDOM: histories of 4-8 actions over three documents (half of the sessions with file names a file: URI must percent-encode: blank, '#', '%', brackets, non-ASCII), drawn from the same pool plus a 'reflow' (the previous text with one blank turned into a line break: all byte offsets stay, line/column of the diagnostic moves) and a 're-opened tab' (didClose + didOpen, protocol version numbers restart at 1). At each quiescent point (all snapshot tasks ended by hook counters, then barrier requests): for every file of the final workspace the last published diagnostics equal those of a fresh analysis of the reference session state (refpos-converted); every URI ever published that is not in the final workspace has an empty last publication; versions per URI never decrease (checked on the arrival order of the notification stream). non-trivial = every session; distinct by action sequence".into(),
+            LMode::Converge => "sessions over documents a.td (-> b.td (-> c.td)); every text version carries uniquely named classes and, if faulty, a uniquely named undefined parent, and includes the next document or not; disk is rewritten with the same text before each message (so C12 cannot interfere). EXHAUSTIVE: all histories of length <= 3 (thorough 4) over the 10-action pool of two documents (8 new texts - the second document may include the first one back, an include cycle - and a resend of the unchanged text per document), each run twice: checked at every quiescent prefix, and sent as a burst and checked at the end. RANDOM: histories of 4-8 actions over three documents (half of the sessions with file names a file: URI must percent-encode: blank, '#', '%', brackets, non-ASCII), drawn from the same pool plus a 'reflow' (the previous text with one blank turned into a line break: all byte offsets stay, line/column of the diagnostic moves) a 're-opened tab' (didClose + didOpen, protocol version numbers restart at 1) and a 'revert' (the editor sends exactly the on-disk text); a third of the sessions has one document that exists only in the editor (never on disk: includes of it resolve only while it is open). At each quiescent point (all snapshot tasks ended by hook counters, then barrier requests): for every file of the final workspace the last published diagnostics equal those of a fresh analysis of the reference session state (refpos-converted); every URI ever published that is not in the final workspace has an empty last publication; versions per URI never decrease (checked on the arrival order of the notification stream). non-trivial = every session; distinct by action sequence".into(),
             LMode::Buffers => "same session space as C11, but the disk holds texts the editor never sends (faulty, including the next document, marked _disk_) while the editor sends texts marked _ed_: reference session = disk overlaid by open buffers, root = last touched document. At each quiescent point the undefined-class markers named by the last published diagnostics of workspace files must be exactly those of the reference session, and documentSymbol of every workspace document must list exactly the classes its current reference text declares (an open document reached only through an include must show its editor text; a never-opened one its disk text). non-trivial = every session".into(),
         }
     }
@@ -847,7 +866,14 @@ impl Check for LspCheck {
                 let n = tier.pick(300, 8000);
                 vec![("workspaces", n), ("definition_cross_file", n), ("definition_same_file", n), ("references_requests", n * 10), ("non_ascii", n / 4), ("crlf", n / 10), ("mixed_line_terminators", n / 10), ("diagnostics_in_included_file", n / 20), ("documentLink_nonempty", n / 2), ("inlayHint_nonempty", n / 2)]
             }
-            _ => vec![("exhaustive_sessions", tier.pick(400, 2500)), ("random_sessions", tier.pick(150, 8000)), ("sessions_burst", 100), ("quiescent_points", tier.pick(1000, 20_000)), ("action:with-include", 500), ("action:resend-same-text", 200), ("action:reflow-same-byte-offsets", tier.pick(25, 500)), ("action:reopen-restarts-versions", tier.pick(25, 500)), ("sessions_with_percent_encoded_names", tier.pick(60, 1500))],
+            _ => {
+                let mut v = vec![("exhaustive_sessions", tier.pick(400, 2500)), ("random_sessions", tier.pick(150, 8000)), ("sessions_burst", 100), ("quiescent_points", tier.pick(1000, 20_000)), ("action:with-include", 500), ("action:resend-same-text", 200), ("action:reflow-same-byte-offsets", tier.pick(25, 500)), ("action:reopen-restarts-versions", tier.pick(25, 500)), ("sessions_with_percent_encoded_names", tier.pick(60, 1500)), ("sessions_with_unsaved_document", tier.pick(60, 1500))];
+                if self.mode == LMode::Buffers {
+                    // (in C11 the disk always equals the editor text, so a revert is a resend there)
+                    v.push(("action:revert-to-disk-text", tier.pick(10, 300)));
+                }
+                v
+            }
         }
     }
     fn exhaustive(&self, tier: Tier) -> Option<String> {
